@@ -304,7 +304,7 @@ def build_model_runner():
     with Lock("extract"):
         proj = set(coq_project_files())
         want = [f for f in ("Base/Bytes.v", "Base/Tok.v", "Skel/Compose.v", "Norm/Norm.v", "Inline/Css.v", "Inline/Tag.v", "Parser/Pre.v", "Facts/ParserConsts.v", "Inline/Css.v", "Inline/Html.v",
-                            "Norm/Norm.v", "Width/Model.v") if f in proj]
+                            "Norm/Norm.v", "Norm/ClassOrder.v", "Width/Model.v") if f in proj]
         ok, mlog, dt = coq_make([f + "o" for f in want])
         if not ok:
             return None, mlog
